@@ -2,7 +2,7 @@
    Statements only (model: model/Sched.v, `step` = the repaired scheduler, `step_prefix` = the
    literal code of the unchanged tree); every proof is `exact <lemma>`.                       *)
 From Coq Require Import ZArith List Bool.
-From XV Require Import model.Sched proofs.Sched_lemmas proofs.Sched_inv proofs.Sched_thm.
+From XV Require Import model.Sched proofs.Sched_lemmas proofs.Sched_inv proofs.Sched_thm proofs.Sched_live.
 Import ListNotations.
 Open Scope Z_scope.
 
@@ -39,6 +39,17 @@ Theorem C06_wait_sound : forall W s l s', wf W = true -> reachable W s -> step W
   wait_completes s s' -> all_final s /\ all_final s' /\ unfinished s = 0.
 Proof. exact wait_sound. Qed.
 Print Assumptions C06_wait_sound.
+
+(* never hanging, as deadlock freedom: in every reachable state with no ready callback and no pending
+   external completion (helper thread / process), every submitted job has returned and a pending
+   experiment.wait() has completed - for all workloads in which a token request is between 1 and
+   the total of its token, all schedules, all submission histories *)
+Theorem C06_no_hang : forall W s, wf W = true -> posreq W -> reachable W s ->
+  queue s = [] -> has_pending s W = false ->
+  (forall j, spawned (pc (jobs s j)) = true -> exists r, pc (jobs s j) = PReturned r) /\
+  (wst s = WNone \/ wst s = WReturned \/ wst s = WRaised).
+Proof. exact no_hang. Qed.
+Print Assumptions C06_no_hang.
 
 (* the three defects of the unchanged tree, on the literal pre-fix model *)
 Theorem C06_resubmit_counter_refuted : exists W ls s, wf W = true /\ steps_prefix W (init W) ls = Some s /\
